@@ -414,6 +414,67 @@ def family_special(rnd, tier):
     out.append(SC("spec-blk-tree", tree("s", {"a": "F1", "bd": ("blk", 7, 1), "z": "F2"}), ["s"], "d", cls="special"))
     return out
 
+def family_special_random(rnd, count):
+    """C14: seeded random node kinds, device numbers (major up to 4095, minor up to 2^20 - 1), modes, umasks, positions
+    (sole source / in a tree at a random depth), destination states (fresh, or an existing entry of a random kind at the node's
+    target), no-clobber or not."""
+    out = []
+    def node(name):
+        k = rnd.choice(["fifo", "sock", "chr", "chr", "chr"])
+        m = rnd.choice([0o600, 0o644, 0o666, 0o660, 0o777, 0o400, 0o620, 0o4755 & 0o777])
+        if k == "chr":
+            maj = rnd.choice([1, 4, 5, 10, 180, 255, 256, 511, 4095]); mnr = rnd.choice([0, 3, 7, 255, 256, 257, 65535, 65536, 70000, (1 << 20) - 1])
+            return E(name, "chr", "%d:%d" % (maj, mnr), m=m)
+        return E(name, k, m=m)
+    def existing(path, avoid):
+        k = rnd.choice(["file", "fifo", "chr", "link", "emptydir"])
+        if k == "file": return [E(path, "file", "G1")]
+        if k == "fifo": return [E(path, "fifo", m=0o600)]
+        if k == "chr": return [E(path, "chr", "9:9", m=0o600)]
+        if k == "link": return [E(path, "link", "nowhere")]
+        return [E(path, "dir")]
+    for i in range(count):
+        um = rnd.choice([0, 0o022])
+        n = rnd.random() < 0.2
+        if rnd.random() < 0.35:
+            e = node("nd")
+            fs = [e]
+            dst = rnd.choice(["fresh", "intodir", "replace"])
+            if dst == "intodir":
+                fs += [E("d", "dir")] + (existing("d/nd", None) if rnd.random() < 0.5 else [])
+            elif dst == "replace":
+                fs += existing("d", None)
+            sc = SC("rspec-%d-sole-%s-%s" % (i, e["k"], dst), fs, ["nd"], "d", r=False, n=n, cls="special")
+        else:
+            fs = [E("s", "dir"), E("s/a", "file", "F1")]
+            dirs = ["s"]
+            for j in range(rnd.randint(0, 3)):
+                dname = rnd.choice(dirs) + "/d%d" % j
+                fs.append(E(dname, "dir")); dirs.append(dname)
+            names = []
+            for j in range(rnd.randint(1, 6)):
+                nm = rnd.choice(dirs) + "/n%d" % j
+                fs.append(node(nm)); names.append(nm)
+            T = rnd.random() < 0.3
+            if rnd.random() < 0.5:
+                # an earlier state of the destination: some node targets are taken by entries of random kinds
+                base = "d" if T else "d/s"
+                fs.append(E("d", "dir"))
+                if not T: fs.append(E("d/s", "dir"))
+                made = set()
+                for nm in names:
+                    if rnd.random() < 0.6:
+                        rel = nm.split("/")[1:]
+                        for q in range(1, len(rel)):
+                            pp = base + "/" + "/".join(rel[:q])
+                            if pp not in made:
+                                made.add(pp); fs.append(E(pp, "dir"))
+                        fs += existing(base + "/" + "/".join(rel), None)
+            sc = SC("rspec-%d-tree%s" % (i, "-T" if T else ""), fs, ["s"], "d", T=T, n=n, cls="special")
+        sc["umask"] = um
+        out.append(sc)
+    return out
+
 def family_reject(rnd, tier):
     """C16: every rejection class x position of the offending argument x destination state."""
     out = []
@@ -458,6 +519,63 @@ def family_reject(rnd, tier):
     out.append(SC("rej-glob-dir-norec", good + [E("d", "dir")], ["g1", "g2", "gd"], "d", r=False, glob=["g?"], cls="reject"))
     out.append(SC("rej-glob-dir-norec-populated", good + dstates["populated"], ["gd"], "d", r=False, glob=["gd*"], cls="reject"))
     out.append(SC("rej-glob-nomatch-first", good + [E("d", "dir")], ["g1"], "d", r=False, glob=["nonexist.txt", "g1"], cls="reject-glob"))
+    return out
+
+def family_reject_random(rnd, count):
+    """C16: a seeded random valid invocation made invalid in ONE randomly chosen way, at a random argument position, with random
+    result-neutral options around it.  Trace_NS decides from main's validation rules whether the invocation is rejected; the
+    clause then demands an unchanged sandbox."""
+    out = []
+    good = [E("g1", "file", "F1"), E("g2", "file", "F2"), E("gd", "dir"), E("gd/x", "file", "F3"), E("ge", "dir"), E("by", "file", "F6")]
+    dstates = {"absent": [], "dir": [E("d", "dir")], "populated": tree("d", {"g1": "G1", "gd": {"x": "G3"}, "keep": "F7"}), "file": [E("d", "file", "G9")]}
+    for i in range(count):
+        dn = rnd.choice(sorted(dstates))
+        fs = [dict(e) for e in good] + [dict(e) for e in dstates[dn]]
+        srcs = rnd.sample(["g1", "g2", "gd", "gd/x", "ge"], rnd.randint(1, 4))
+        srcs = [rnd.choice(["", "./", "gd/../"]) + x for x in srcs]
+        how = rnd.choice(["missing", "enotdir", "loop", "dangling", "dir-norec", "multi-nondir", "same", "same-target", "badopt", "glob-nomatch"])
+        r, dest, extra, glob, cls = True, "d", [], [], "reject"
+        pos = rnd.randint(0, len(srcs))
+        if how == "missing":
+            srcs.insert(pos, rnd.choice(["missing", "gd/missing", "./nope"]))
+        elif how == "enotdir":
+            srcs.insert(pos, "g1/x")
+        elif how == "loop":
+            fs.append(E("loop", "link", "loop")); srcs.insert(pos, "loop")
+        elif how == "dangling":
+            fs.append(E("dang", "link", "nowhere")); srcs.insert(pos, "dang")
+        elif how == "dir-norec":
+            r = False
+            if not any(x.endswith(("gd", "ge")) for x in srcs):
+                srcs.insert(pos, "gd")
+        elif how == "multi-nondir":
+            if len(srcs) < 2:
+                srcs.append("g2" if "g2" not in srcs else "g1")
+            if dn in ("dir", "populated"):
+                dest = rnd.choice(["by", "nonexistent"])
+        elif how == "same":
+            srcs.insert(pos, "d"); 
+        elif how == "same-target":
+            if dn in ("dir", "populated"):
+                if not any(e["p"] == ["d", "g1"] for e in fs):
+                    fs.append(E("d/g1", "file", "G1"))
+                srcs = [x for x in srcs if not x.endswith("g1")]
+                srcs.insert(min(pos, len(srcs)), rnd.choice(["d/g1", "./d/g1"]))
+            else:
+                srcs, dest, r = ["g1"], rnd.choice(["./g1", "gd/../g1"]), False
+        elif how == "badopt":
+            extra += rnd.choice([["--force", "--no-clobber"], ["--reflink", "sometimes"], ["--backup", "yes"], ["--driver", "nope"], ["--workers", "many"], ["--block-size", "big"], ["--no-such-option"]])
+            cls = "reject-opt"
+        elif how == "glob-nomatch":
+            r = False
+            glob = [x for x in srcs if "/" not in x and x in ("g1", "g2")] or ["g1"]
+            glob.insert(min(pos, len(glob)), rnd.choice(["nomatch*", "zz?", "g1x*"]))
+            srcs = [g for g in glob if "*" not in g and "?" not in g]
+            cls = "reject-glob"
+        if cls == "reject":
+            extra += rnd.choice([[], [], ["--backup", "numbered"], ["--backup", "auto"], ["--fsync"], ["--no-perms"], ["--gitignore"], ["--no-progress"], ["--workers", "3"]])
+        sc = SC("rrej-%d-%s-%s" % (i, how, dn), fs, srcs, dest, r=r, extra=extra, glob=glob, cls=cls)
+        out.append(sc)
     return out
 
 def family_random(rnd, count):
